@@ -129,6 +129,16 @@ def cases(tier):
                 for mode in ("record", "iam"):
                     add(c=dict(true_c, window=4), s={"maxapdu": 1476, "window": 4}, reqs=[(0, n)], peerinfo=mode,
                         views={"s_of_c": believed})
+    # (F) the application has filled in what the path to the peer carries (DeviceInfo.maxNpduLength): more or less than the
+    # peer's own limit, with the client's own limit above both
+    for ms in (206, 50):
+        for path in (1497, 480, 128):
+            lim = min(ms, path)
+            for k in (1, 2, 3):
+                for d in (-4, -3, -2, 0, 40):
+                    n = payload_for(max(9, k * lim + d))
+                    add(c={"maxapdu": 1024, "window": 4}, s={"maxapdu": ms, "window": 4}, reqs=[(n, 0)], peerinfo="record",
+                        views={"c_of_s": {"maxnpdu": path}})
     # (D) windows
     for wc in (1, 2, 16, 127):
         for ws in (1, 2, 16, 127):
@@ -228,7 +238,9 @@ def judge(sysm):
         if c[1] not in ("ack", "abort"):
             problems.append(("unexpected-outcome:%s" % c[1], {}))
     elif c is not None:
-        feas_req = feasible(len(segmon.private_transfer_data(1, b"\0" * rq_len)), srv_max, REQ_HDR, REQ_HDR_SEG,
+        path = cfg.views.get("c_of_s", {}).get("maxnpdu")
+        feas_req = feasible(len(segmon.private_transfer_data(1, b"\0" * rq_len)),
+                            srv_max if (path is None or srv_max is None) else min(srv_max, path), REQ_HDR, REQ_HDR_SEG,
                             cfg.c["seg"] in ("segmentedTransmit", "segmentedBoth"),
                             None if srv_seg is None else srv_seg in ("segmentedReceive", "segmentedBoth"), srv_maxsegs)
         if req_hdr is not None:
@@ -575,7 +587,7 @@ def _iam_octets(dev, maxapdu, seg):
     return bytes([0x01, 0x00, 0x10, 0x00, 0xC4]) + oid.to_bytes(4, "big") + bytes([0x22, maxapdu >> 8, maxapdu & 0xFF, 0x91, seg, 0x22, 0x03, 0xE7])
 
 
-def server_script_case(wc, wg, wr, final_ack, resp_segs, req_segs=4):
+def server_script_case(wc, wg, wr, final_ack, resp_segs, req_segs=4, first_ack=True):
     """The real client stack (proposes window wc) sends a request of req_segs segments to a raw scripted server that
     grants min(wc, wg) per SegmentACK, then answers with a response of resp_segs segments proposing window wr; final_ack
     False: the SegmentACK for the last request segment is lost (the response follows at once).  The client may send at most
@@ -627,6 +639,16 @@ def server_script_case(wc, wg, wr, final_ack, resp_segs, req_segs=4):
     invoke = segs[0]["invoke"]
     proposed = segs[0]["win"]
     granted = max(1, min(proposed, wg))
+    if not first_ack:
+        # the acknowledgement of the first segment is lost: nothing has been granted yet, so whatever the client's timer
+        # makes it send is the first segment again and nothing else
+        nd = vclock.next_due()
+        if nd is not None:
+            vclock.advance_to(nd)
+        again = [a for a in take() if a["type"] == 0 and a["seg"]]
+        if [a["seq"] for a in again] != [0]:
+            problems.append(("segments-sent-before-any-window-was-granted",
+                             {"after_the_timeout": [a["seq"] for a in again], "client_proposed": proposed}))
     last, more, guard, bursts = 0, segs[0]["mor"], 0, []
     while more and guard < 50:
         guard += 1
@@ -691,7 +713,9 @@ def server_script_cases(tier):
             for wr in ws:
                 for final_ack in (True, False):
                     for resp_segs in (2, 5):
-                        yield (wc, wg, wr, final_ack, resp_segs)
+                        yield (wc, wg, wr, final_ack, resp_segs, 4, True)
+                        if resp_segs == 2 and final_ack:
+                            yield (wc, wg, wr, final_ack, resp_segs, 4, False)
 
 
 def shard_server_script(item, deadline):
